@@ -165,6 +165,10 @@ func runC15(c *Ctx) error {
 			// exact text, and the extractor gives the message back
 			w.Add("CText "+e+" "+gal.Str(err.Error()), map[string]interface{}{"kind": "custom clause text", "rule": text, "entry": entry, "error": err.Error()},
 				fmt.Sprintf("text:%s:%s:zh%v", strings.SplitN(x.rule, "=", 2)[0], entry, zh))
+			if !strings.Contains(msg, valid.ExplainEn) && !strings.Contains(msg, valid.ExplainZh) {
+				w.Add("CCustom "+gal.Str(msg)+" "+gal.Str(err.Error()), map[string]interface{}{"kind": "custom message behind its label", "rule": text, "entry": entry, "error": err.Error()},
+					fmt.Sprintf("label:%s:%s:zh%v", strings.SplitN(x.rule, "=", 2)[0], entry, zh))
+			}
 			lab := valid.ExplainEn
 			if zh {
 				lab = valid.ExplainZh
